@@ -149,13 +149,40 @@ def known_matcher(prop_id: str, match_fn):
 # ----------------------------------------------------------------------------------------------------------
 # Hypothesis driver
 # ----------------------------------------------------------------------------------------------------------
+def repo_exception_as_violation(e: BaseException, case):
+    """An exception the check did not anticipate: if it was RAISED INSIDE the tree under test (innermost traceback frame
+    under VERIF_REPO) while the check was exercising it on inputs the check holds to be valid, the code under test broke
+    a promise the check relies on - a violation, reported with the place it came from.  Anything raised in harness code
+    (attribute renamed by a refactoring, our own bugs) stays a harness error."""
+    tb = e.__traceback__
+    frames = []
+    while tb is not None:
+        frames.append((tb.tb_frame.f_code.co_filename, tb.tb_lineno, tb.tb_frame.f_code.co_name))
+        tb = tb.tb_next
+    if not frames:
+        return None
+    repo = os.path.realpath(REPO) + os.sep
+    if not os.path.realpath(frames[-1][0]).startswith(repo):
+        return None
+    where = " <- ".join(f"{os.path.relpath(f, repo)}:{ln} {fn}" for f, ln, fn in reversed(frames[-3:]) if os.path.realpath(f).startswith(repo))
+    return Violation("code-under-test-raises:" + type(e).__name__, case, f"{type(e).__name__}: {e!r} raised at {where}")
+
+
 def guarded(check, stats: Stats, known_match=None, muted=()):
     """Wrap `check(case, stats)`: a violation that a listed open finding explains is counted and skipped, so the
     search continues behind it; a clause already reported in this run (muted) is skipped likewise."""
 
     def run(case):
         try:
-            check(case, stats)
+            try:
+                check(case, stats)
+            except (Violation, HarnessError):
+                raise
+            except Exception as e:
+                v = repo_exception_as_violation(e, case)
+                if v is None:
+                    raise
+                raise v from e
         except Violation as v:
             run.last = v
             if v.clause in muted:
